@@ -353,3 +353,8 @@ Definition m_diagonal_mask (d : dty) (a1 a2 : list Z) (offset : Z) : list bool :
 Definition m_gcxs_reduce_rows (xd d_self : dty) (R C nnz : Z) : res tarr :=
   d_x <- transpose_dtype xd R C nnz ;;
   Ok (s_gcxs_reduce_rows d_self d_x R).
+
+(* ---------------------------------------------------------------- broadcasting (_get_expanded_coords_data):
+   the positions 0..n-1 along a broadcast axis of extent n, as stored in `expanded_coords` *)
+Definition m_broadcast_positions (d : dty) (n : Z) : tarr :=
+  assign_into (s_expanded_coords_dtype d) (mkT (DInt i64) (zrange_ n)).
